@@ -354,7 +354,10 @@ def ob_preamble_reader(report):
             sample['code_accepts'] = z3.is_true(m.eval(okc, True))
             o = ob.done([ex], 'violated', f'preamble reader {"accepts" if sample["code_accepts"] else "rejects"} the 8 bytes {sample["counterexample_bytes"]}', sample,
                         key='preamble-read-set', paths=len(res), extra_queries=2, extra_solver=t1 + t2)
-            o.replay = write_replay(PROP, o.name, sample)
+            o.replay = write_replay(report.prop, o.name, sample)
+            # replay the solver's 8 bytes against the real build before reporting
+            import kani
+            kani.confirm_natively(o, report.prop, 'wire', 'verif_replay_c07_preamble_bytes', {'VERIF_CEX_BYTES': sample['counterexample_bytes']}, 'preamble bytes')
             return o
         ob.done([ex], 'held', '', sample, paths=len(res), extra_queries=2, extra_solver=t1 + t2)
     o = guarded(report, 'preamble_reader_mir', 'read_version_frame (MIR): among all 2^64 inputs exactly 61 6e 65 6d 6f 00 01 00 is accepted, as Version::V1; a failed read_exact is an error',
